@@ -333,7 +333,14 @@ func (o *structFieldsCBOR) FromCBOR(dm cbor.DecMode, data []byte) error {
 	}
 
 	if additionalInfo != 31 { // definite-length encoding (mapLen may be 0)
-		o.Fields = make(map[int]cbor.RawMessage, mapLen)
+		// an entry takes at least two bytes: do not reserve space for
+		// more entries than the remaining input can hold
+		sizeHint := mapLen
+		if maxEntries := len(rest) / 2; sizeHint > maxEntries {
+			sizeHint = maxEntries
+		}
+
+		o.Fields = make(map[int]cbor.RawMessage, sizeHint)
 
 		for i := 0; i < mapLen; i++ {
 			rest, err = o.unmarshalKeyValue(dm, rest)
